@@ -75,3 +75,31 @@ pub async fn sched_point(name: &'static str) {
         h(name).await;
     }
 }
+
+// ---------------------------------------------------------------------------------------------
+// Protocol trace: the linearization points of the in-memory transaction (flag taken / refused,
+// records put into the log, log drained, flag released, rollback) reported to an external
+// harness, synchronously, right after the state change. Without an installed hook: nothing.
+
+use crate::storage::types::DbRecord;
+
+/// The type of an installable trace hook: (event name, outcome flag, records concerned)
+pub type TraceHook = Arc<dyn Fn(&'static str, bool, &[DbRecord]) + Send + Sync>;
+
+static TRACE_HOOK: OnceLock<RwLock<Option<TraceHook>>> = OnceLock::new();
+
+/// Install (or remove) the trace hook
+pub fn set_trace_hook(hook: Option<TraceHook>) {
+    let cell = TRACE_HOOK.get_or_init(|| RwLock::new(None));
+    *cell.write().unwrap() = hook;
+}
+
+/// Called by the library at a linearization point of the transaction
+pub fn trace_event(name: &'static str, ok: bool, records: &[DbRecord]) {
+    let hook = TRACE_HOOK
+        .get()
+        .and_then(|cell| cell.read().unwrap().clone());
+    if let Some(h) = hook {
+        h(name, ok, records);
+    }
+}
